@@ -117,9 +117,54 @@ fn ppc64_ctx_section(vals: &[u64]) -> Section {
     s.append_repeated(0, 264).append_repeated(0, 576)
 }
 
+/// raw context of a 32-bit architecture (all registers 0 except pc / sp), as the bytes the exception stream points at:
+/// CONTEXT_MIPS / CONTEXT_SPARC (u64 register fields although the platforms are 32-bit), CONTEXT_PPC, CONTEXT_ARM
+fn native32_ctx_section(arch: u16, pc: u64, sp: u64) -> Option<Section> {
+    use scroll::ctx::SizeWith;
+    use scroll::Pwrite;
+    fn ser<T: scroll::ctx::TryIntoCtx<scroll::Endian, Error = scroll::Error> + SizeWith<scroll::Endian>>(c: T) -> Section {
+        let mut buf = vec![0u8; T::size_with(&scroll::LE)];
+        buf.pwrite_with(c, 0, scroll::LE).expect("serialize context");
+        Section::with_endian(TEndian::Little).append_bytes(&buf)
+    }
+    match arch {
+        1 => {
+            let mut c: md::CONTEXT_MIPS = unsafe { std::mem::zeroed() };
+            c.context_flags = 0x40007;
+            c.iregs[29] = sp;
+            c.epc = pc;
+            Some(ser(c))
+        }
+        0x8001 => {
+            let mut c: md::CONTEXT_SPARC = unsafe { std::mem::zeroed() };
+            c.context_flags = 0x1000_0007;
+            c.g_r[14] = sp;
+            c.pc = pc;
+            Some(ser(c))
+        }
+        3 => {
+            let mut c: md::CONTEXT_PPC = unsafe { std::mem::zeroed() };
+            c.context_flags = 0x2000_0007;
+            c.gpr[1] = sp as u32;
+            c.srr0 = pc as u32;
+            Some(ser(c))
+        }
+        5 => {
+            let mut c: md::CONTEXT_ARM = unsafe { std::mem::zeroed() };
+            c.context_flags = 0x4000_0007;
+            c.iregs[13] = sp as u32;
+            c.iregs[15] = pc as u32;
+            Some(ser(c))
+        }
+        _ => None,
+    }
+}
+
 fn parse_ctx(t: &mut Toks) -> Option<Vec<u64>> {
     match t.str() {
         "-" => None,
+        // the raw context of the dump's own (32-bit) architecture: pc sp — Q cases only
+        "N" => Some((0..2).map(|_| t.u64()).collect()),
         "A" => Some((0..17).map(|_| t.u64()).collect()),
         // x86 context (register_size 4): eip esp ebp ebx esi edi eax ecx edx eflags — T cases only
         "X" => Some((0..10).map(|_| t.u64()).collect()),
@@ -184,9 +229,13 @@ fn run_dump(
 ) -> (u64, String, String, String, String) {
     let e = TEndian::Little;
     let vals = ctxv.clone().unwrap_or(vec![0; 17]);
-    let rip = vals[16];
-    let rsp = vals[7];
-    let context = if arch == md::ProcessorArchitecture::PROCESSOR_ARCHITECTURE_PPC64 as u16 && vals.len() == 39 {
+    let native = vals.len() == 2;
+    let rip = if native { vals[0] } else { vals[16] };
+    let rsp = if native { vals[1] } else { vals[7] };
+    let native_ctx = if native { native32_ctx_section(arch, rip, rsp) } else { None };
+    let context = if let Some(c) = native_ctx {
+        c
+    } else if arch == md::ProcessorArchitecture::PROCESSOR_ARCHITECTURE_PPC64 as u16 && vals.len() == 39 {
         ppc64_ctx_section(&vals)
     } else if arch == md::ProcessorArchitecture::PROCESSOR_ARCHITECTURE_AMD64 as u16 {
         amd64_ctx_section(&vals)
